@@ -244,7 +244,25 @@ ATTR_TYPES = ["bool", "int", "float", "complex", "str"]
 WORDS = ["a", "b7", "edge", "Wing", "x_1", "ZZ", "mouette", "0", "k9k", "left.right"]
 
 
-def attr_value(rng, typ):
+# text a line-oriented ASCII file can hold as one value: printable ASCII with interior blanks, no leading / trailing blank,
+# no '#' (comment) and no '[' / ']' (chunk tags)
+TEXT_ALPHABET = "abcdefghijklmnopqrstuvwxyzABCDEFGHIJKLMNOPQRSTUVWXYZ0123456789      _-+*/=.,;:!?%&|~^<>(){}@$'\"\\"
+BIG_INTS = [2 ** 31, 2 ** 32 - 1, 2 ** 32, 2 ** 53 + 1, 2 ** 63 - 1, 2 ** 63, 2 ** 64 - 1, 2 ** 64, -2 ** 31 - 1, -2 ** 63, -2 ** 63 - 1, 10 ** 30]
+
+
+def long_text(rng, lo=33, hi=200):
+    n = rng.choice([lo, lo + 1, 40, 64, 65, 100, hi, rng.randint(lo, hi)])
+    body = "".join(rng.choice(TEXT_ALPHABET) for _ in range(n - 2))
+    return rng.choice("abcXYZ019(") + body + rng.choice("abcXYZ019).")
+
+
+def attr_value(rng, typ, wide=None):
+    """wide: None | "text" (strings of 33..200 characters with blanks and punctuation: sparse string attributes have no length limit)
+    | "int" (integers outside 32 / 53 / 64 bits: a sparse scalar integer attribute holds Python ints)."""
+    if wide == "text" and typ == "str" and rng.random() < 0.5:
+        return long_text(rng)
+    if wide == "int" and typ == "int" and rng.random() < 0.4:
+        return rng.choice(BIG_INTS)
     if typ == "bool":
         return rng.random() < 0.5
     if typ == "int":
@@ -256,8 +274,15 @@ def attr_value(rng, typ):
     return rng.choice(WORDS)
 
 
-def attr_spec(rng, typ, arity, dense, custom_default, n_items, fill):
-    """name encodes type/arity/storage so that mechanism strings never carry random text."""
+def attr_spec(rng, typ, arity, dense, custom_default, n_items, fill, force_wide=False):
+    """name encodes type/arity/storage so that mechanism strings never carry random text.
+    Sparse string attributes also get long texts, sparse scalar integer attributes also get integers beyond 64 bits
+    (force_wide: at least the first two written values are of that kind)."""
+    wide = None
+    if not dense and typ == "str":
+        wide = "text"
+    if not dense and typ == "int" and arity == 1:
+        wide = "int"
     name = "u_%s%d_%s%s" % (typ, arity, "dense" if dense else "sparse", "_dflt" if custom_default else "")
     default = None
     if custom_default and arity == 1:
@@ -265,5 +290,9 @@ def attr_spec(rng, typ, arity, dense, custom_default, n_items, fill):
     values = {}
     for i in range(n_items):
         if rng.random() < fill:
-            values[i] = attr_value(rng, typ) if arity == 1 else [attr_value(rng, typ) for _ in range(arity)]
+            values[i] = attr_value(rng, typ, wide) if arity == 1 else [attr_value(rng, typ, wide) for _ in range(arity)]
+    if force_wide and wide and n_items:
+        for k, i in enumerate(sorted(values)[:2] or [0]):
+            one = (lambda: long_text(rng, 33 + 167 * k, 33 + 167 * k)) if wide == "text" else (lambda: BIG_INTS[(5 + 3 * k) % len(BIG_INTS)])
+            values[i] = one() if arity == 1 else [one() if j == k % arity else attr_value(rng, typ) for j in range(arity)]
     return {"name": name, "type": typ, "arity": arity, "dense": dense, "default": default, "values": values}
